@@ -17,7 +17,7 @@ from . import common as C
 ID = 'C16'
 REAL_REPLAY = False
 STUBS = ['numpy exp / log inside activity_coefficients.py: uninterpreted functions (real numpy in replays)']
-ASSUMPTIONS = ['mole fractions symbolic > 0 (not normalised by the harness: the models normalise the sub-composition themselves)',
+ASSUMPTIONS = ['mole fractions: every face and vertex of the simplex (each entry exactly 0 or symbolic > 0; not normalised by the harness: the models normalise the sub-composition themselves)',
                'temperature from the concrete set {298.15, 350.0} (the interaction parameter arrays are float arrays that are divided by T in place)']
 OUTSIDE = ['gamma_i -> 1 as x_i -> 1', 'Gibbs-Duhem relation', 'more than 3 chemicals with groups + 1 without']
 BOUNDS = {'quick': dict(models='UNIFAC Dortmund NIST Ideal', chemicals='Water Ethanol Octane + one chemical without groups'),
@@ -42,12 +42,19 @@ def model_class(name):
             'NIST': ac.NISTActivityCoefficients, 'Ideal': ac.IdealActivityCoefficients}[name]
 
 
-def xs(E, n):
+def xs(E, n, zeros=False):
+    """mole fractions: symbolic > 0, or (zeros=True) any face / vertex of the simplex: each entry is either
+    symbolic > 0 or exactly 0.0, at least one present"""
     out = []
     for i in range(n):
+        if zeros and not E.choice(2, f'x{i}-present'):
+            out.append(0.0)
+            continue
         v = E.real(f'x{i}', nice=(0.05, 0.9))
         E.assume(v > 0)
         out.append(v)
+    if all(not isinstance(v, core.SymNum) and v == 0.0 for v in out):
+        raise core.PathAbort('empty composition')
     return out
 
 
@@ -68,7 +75,7 @@ def g_purity_and_defaults():
             chems = W[:2]
         T = E.pick([298.15, 350.0], 'T')
         G = model_class(name)(chems)
-        x = xs(E, len(chems))
+        x = xs(E, len(chems), zeros=True)
         arr = C.array(E, x)
         before = list(arr)
         how = E.pick(['call', 'f'], 'how')
@@ -85,8 +92,11 @@ def g_purity_and_defaults():
                 E.prove('chemical-without-groups-gets-exactly-one', (not isinstance(g[i], core.SymNum)) and float(g[i]) == 1.0, sig=sig)
         if name == 'Ideal':
             E.prove('ideal-model-returns-one', all((not isinstance(v, core.SymNum)) and float(v) == 1.0 for v in g), sig=sig)
-        for i, v in enumerate(g):
-            E.observe(f'gamma{i}', v)
+        # exp / ln are uninterpreted on the symbolic side and real in the replay: only the coefficients that are
+        # plain numbers (the defaults) are comparable between the two
+        for i, c in enumerate(chems):
+            if c is nog or name == 'Ideal':
+                E.observe(f'gamma{i}', g[i])
     return run
 
 
@@ -98,7 +108,7 @@ def g_functional_form():
         chems = _fx['with'][:E.pick([2, 3], 'n')]
         T = E.pick([298.15, 350.0], 'T')
         G = model_class(name)(chems)
-        x = xs(E, len(chems))
+        x = xs(E, len(chems), zeros=True)
         g1 = G(C.array(E, x), T)
         g2 = G.f(C.array(E, x), T, *G.args)
         g1 = list(g1) if np.ndim(g1) else [g1] * len(chems)
